@@ -478,7 +478,14 @@ def run(run):
         except OSError:
             failed = True
         buf = PacketBuffer()
-        T2.send(b, buf)
+        if T2 is types[0][0]:
+            b &= 2 ** 32 - 1               # the 32-bit type's own domain
+        try:
+            T2.send(b, buf)
+        except Exception as e:
+            run.violation('encode/%s/raised' % T2.__name__, 'send raised for '
+                          'an in-domain integer', {'n': b, 'exc': repr(e)})
+            break
         run.case(('after-failed-send', a, b))
         run.count('sends_after_failed_send')
         if not failed:
